@@ -10,10 +10,11 @@ int main(void)
   for (long it = 0; it < 300000; it++) {
     long secs = rnd() % 4294967296ull, ns; unsigned dp = 1 + rnd() % 9; int m = rnd() % 4;
     if (m == 0) ns = rnd() % 1000000000ull; else if (m == 1) ns = 1000000000 - 1 - rnd() % 1000; else if (m == 2) { long p = 1; for (unsigned k = dp; k < 9; k++) p *= 10; ns = (rnd() % 1000) * p + p / 2 + (long)(rnd() % 3) - 1; if (ns < 0) ns = 0; ns %= 1000000000; } else ns = rnd() % 1000;
+    /* the formatting model (translated vf_fmt_fixed on models/ostream_fmt.c) against glibc, on the doubles the log renderer can produce */
     uint8_t out[41]; memset(out, 0, sizeof out);
-    int n = (int)vf_logts(out, secs, ns, dp);
-    char ref[64]; double x = (double)(secs % 60) + (double)ns / 1e9;
-    snprintf(ref, sizeof ref, "2014-07-02 23:15:%0*.*f", 3 + dp, dp, x);
+    double x = (double)(secs % 60) + (double)ns / 1e9;
+    int n = (int)vf_fmt_fixed(out, x, 3 + dp, dp);
+    char ref[64]; snprintf(ref, sizeof ref, "%0*.*f %04d|  c", 3 + dp, dp, x, (int)dp);
     tot++;
     if (strcmp(ref, (char*)out) || n != (int)strlen(ref)) { if (bad++ < 5) printf("DIFF secs=%ld ns=%ld dp=%u model=[%s] libc=[%s]\n", secs, ns, dp, out, ref); }
   }
